@@ -72,6 +72,12 @@ func New(p *Program) *M {
 			top[n] = m.fresh()
 		}
 	}
+	// the process made by the i-th exec declaration provides the name exec<i>
+	execChan := make([]int, len(p.Execs))
+	for i := range p.Execs {
+		execChan[i] = m.fresh()
+		top[fmt.Sprintf("exec%d", i+1)] = execChan[i]
+	}
 	for _, pr := range p.Procs {
 		q := &SP{t: pr.Body, env: top, eager: len(pr.Names) > 1}
 		for _, n := range pr.Names {
@@ -80,8 +86,8 @@ func New(p *Program) *M {
 		}
 		m.procs = append(m.procs, q)
 	}
-	for _, e := range p.Execs {
-		c := m.fresh()
+	for i, e := range p.Execs {
+		c := execChan[i]
 		q := &SP{t: &Term{Op: "call", Fn: e}, env: map[string]int{}, names: []int{c}}
 		m.prov[c] = q
 		m.procs = append(m.procs, q)
